@@ -4,6 +4,7 @@ import Afkak.Monitor.C03
 import Afkak.Monitor.C03Store
 import Afkak.Monitor.C13
 import Afkak.Monitor.C13Commit
+import Afkak.Monitor.C13Live
 import Afkak.Monitor.C14
 import Afkak.ConsumerInv
 import Driver.Util
@@ -261,6 +262,8 @@ def evalMon (cfg : Cfg) (name : String) (tr : List Item) : Option Bool :=
   | "c13-shutdown-inproc" => some (Afkak.Monitor.C13.shutdownInprocOk cfg.group tr)
   | "c13-no-crash" => some (Afkak.Monitor.C13.noCrashOk tr)
   | "c13-commit-bounded" => some (Afkak.Monitor.C13.commitBoundedOk cfg.maxAttempts tr)
+  | "c13-alive" => some (Afkak.Monitor.C13.aliveOk tr)
+  | "c13-shutdown-fail" => some (Afkak.Monitor.C13.shutdownFailOk tr)
   | "c14-delays" => some (Afkak.Monitor.C14.delaysOk cfg.retryInit cfg.retryMax tr)
   | "c14-reset" => some (Afkak.Monitor.C14.resetOk cfg.reset tr)
   | "c14-growth" => some (Afkak.Monitor.C14.growthOk cfg.bufInit cfg.bufMax tr)
